@@ -9,6 +9,7 @@ from ..rules import thunks
 from ..rules.directives import run_directive, unwrap, G
 from ..rules.world import STATE, DOT, Shapes, eager_interp, emit_report_summary, get_as_int_opaque
 from . import c03
+from . import c02
 
 EXPLANATION = (
     "R1: compile_and_link_files on an empty program is abstractly executed: the base settled when nothing set it must fold "
@@ -223,3 +224,4 @@ def run(ck):
     ck.run_rule("G1", "deferred thunks capture by value", 20, thunks.rule_G1)
     ck.run_rule("C12.R6", "'.link' passes its raw operand", 1, rule_R6)
     ck.run_rule("C03.R7", "LinearPolynomial algebra (the base cancels in K + end - start)", 18, c03.rule_R7)
+    ck.run_rule("C02.R7", "linked files are placed at base + lengths of the files before them", 3, c02.rule_R7)
